@@ -275,7 +275,7 @@ def streamContent (p : Puller) (s : Script) (codec : Codec) : Option Bytes :=
 
 theorem expected_eq (p : Puller) (s : Script) (codec : Codec) :
     expected p s codec =
-      if s.openOk && tagsOk p s && (!p.verifies || s.verifyOk) && s.renameOk && s.syncOk then
+      if s.openOk && preOk p s && (!p.verifies || s.verifyOk) && s.renameOk && s.syncOk then
         (streamContent p s codec).bind (fit s.writeFault) else none := by
   unfold expected streamContent
   split
@@ -477,7 +477,7 @@ theorem run_of_expected_none (p : Puller) (s : Script) (codec : Codec)
         Op.create ∉ (run canonical p s codec).ops.tail)) ∧
     Op.rename ∉ (run canonical p s codec).ops := by
   unfold run
-  by_cases hg : (s.openOk && tagsOk p s) = true
+  by_cases hg : (s.openOk && preOk p s) = true
   · rw [if_pos hg]
     have hb : good (envOf p s codec) p = false := by
       rw [good_eq, streamGood_envOf]
@@ -492,7 +492,7 @@ theorem run_of_expected_none (p : Puller) (s : Script) (codec : Codec)
       | some c =>
         rw [hsc] at h hst
         simp only [Option.bind_some] at h
-        cases hx : (s.openOk && tagsOk p s && (!p.verifies || s.verifyOk) && s.renameOk && s.syncOk) with
+        cases hx : (s.openOk && preOk p s && (!p.verifies || s.verifyOk) && s.renameOk && s.syncOk) with
         | false =>
           rw [hg] at hx
           cases hv : (!p.verifies || s.verifyOk) <;> cases hr : s.renameOk <;> cases hs : s.syncOk <;> simp_all
@@ -550,6 +550,57 @@ theorem protoOk_successOps (ws : List Bytes) : protoOk (sysOf (successOps ws) 0)
   simp only [sysOf, Nat.lt_irrefl, if_false, List.nil_append, List.append_nil, sysOf_writes, Nat.zero_add]
   generalize ws.flatten.length = n
   by_cases hp : n > 0 <;> simp [hp, protoCheck]
+
+/-! ### paths -/
+
+theorem tempSibling_ne (suffix : List Char) (hs : suffix ≠ []) (d : FPath) : tempSibling suffix d ≠ d := by
+  intro h
+  have : d.name ++ suffix = d.name ++ [] := by simpa [tempSibling] using congrArg FPath.name h
+  exact hs (List.append_cancel_left this)
+
+theorem tempSibling_inj (suffix : List Char) (a b : FPath) (h : tempSibling suffix a = tempSibling suffix b) : a = b := by
+  cases a; cases b
+  simp only [tempSibling, FPath.mk.injEq] at h ⊢
+  exact ⟨h.1, List.append_cancel_right h.2⟩
+
+theorem World.set_same (w : World) (p : FPath) (v : Option Bytes) : (w.set p v) p = v := by simp [World.set]
+theorem World.set_other (w : World) (p q : FPath) (v : Option Bytes) (h : q ≠ p) : (w.set p v) q = w q := by
+  simp [World.set, h]
+
+/-- One operation: the two-path view evolves by `Op.apply`, every other path is untouched. -/
+theorem applyAt_view (suffix : List Char) (hs : suffix ≠ []) (d : FPath) (w : World) (o : Op) :
+    (Op.applyAt suffix d w o).view suffix d = Op.apply (w.view suffix d) o ∧
+    ∀ q, q ≠ d → q ≠ tempSibling suffix d → Op.applyAt suffix d w o q = w q := by
+  have hne := tempSibling_ne suffix hs d
+  cases o with
+  | create => exact ⟨by simp [Op.applyAt, Op.apply, World.view, World.set, hne.symm], fun q _ h2 => World.set_other _ _ _ _ h2⟩
+  | write bs => exact ⟨by simp [Op.applyAt, Op.apply, World.view, World.set, hne.symm], fun q _ h2 => World.set_other _ _ _ _ h2⟩
+  | remove => exact ⟨by simp [Op.applyAt, Op.apply, World.view, World.set, hne.symm], fun q _ h2 => World.set_other _ _ _ _ h2⟩
+  | rename =>
+    cases ht : w (tempSibling suffix d) with
+    | none => simp [Op.applyAt, Op.apply, World.view, ht]
+    | some c =>
+      refine ⟨by simp [Op.applyAt, Op.apply, World.view, World.set, ht, hne.symm], fun q h1 h2 => ?_⟩
+      simp only [Op.applyAt, ht]
+      rw [World.set_other _ _ _ _ h2, World.set_other _ _ _ _ h1]
+  | flush => exact ⟨rfl, fun _ _ _ => rfl⟩
+  | sync => exact ⟨rfl, fun _ _ _ => rfl⟩
+  | close => exact ⟨rfl, fun _ _ _ => rfl⟩
+  | renameFail => exact ⟨rfl, fun _ _ _ => rfl⟩
+
+theorem runOpsAt_view (suffix : List Char) (hs : suffix ≠ []) (d : FPath) (ops : List Op) (w : World) :
+    (runOpsAt suffix d w ops).view suffix d = runOps (w.view suffix d) ops ∧
+    ∀ q, q ≠ d → q ≠ tempSibling suffix d → runOpsAt suffix d w ops q = w q := by
+  induction ops generalizing w with
+  | nil => exact ⟨rfl, fun _ _ _ => rfl⟩
+  | cons o r ih =>
+    obtain ⟨a, b⟩ := applyAt_view suffix hs d w o
+    obtain ⟨c, e⟩ := ih (Op.applyAt suffix d w o)
+    refine ⟨?_, fun q h1 h2 => ?_⟩
+    · show (runOpsAt suffix d (Op.applyAt suffix d w o) r).view suffix d = _
+      rw [c, a]; rfl
+    · show runOpsAt suffix d (Op.applyAt suffix d w o) r q = _
+      rw [e q h1 h2, b q h1 h2]
 
 /-! ### value decoding -/
 
